@@ -249,6 +249,8 @@ def find_from(I, src, dst, crate):
     for c, tr, f, trait_full, selfty in cands:
         if f.params and simple_name(f.params[0][1]) == s_src and f.blocks:
             if f.params[0][1].strip().startswith("&") != src.strip().startswith("&"): continue
+            qp, qs = _crate_qual(I, f.params[0][1]), _crate_qual(I, src)
+            if qp != qs and not (qp is None and qs == c) and not (qs is None and qp == crate): continue
             return f
     return None
 
@@ -363,8 +365,20 @@ def m_residual(I, ctx, callee, args, crate):
     return Err(convert_err(I, ctx, e, src_e, dst_e, crate))
 
 
+def _crate_qual(I, ty):
+    seg = strip_generics(ty).strip().lstrip("&").split("::")[0].replace("_", "-")
+    return seg if seg in I.prog.funcs else None
+
+
+def same_type(I, a, b):
+    a, b = strip_generics(a).strip(), strip_generics(b).strip()
+    if a == b: return True
+    if simple_name(a) != simple_name(b): return False
+    return _crate_qual(I, a) == _crate_qual(I, b)
+
+
 def convert_err(I, ctx, e, src_e, dst_e, crate):
-    if strip_generics(src_e).strip() == strip_generics(dst_e).strip(): return e
+    if same_type(I, src_e, dst_e): return e
     f = find_from(I, src_e, dst_e, crate)
     if f is not None: return I.call_mir(ctx, f, [e])
     if simple_name(dst_e) == "StdError": return EnumV("StdError", "Converted", (e,))
